@@ -440,6 +440,21 @@ def _has_continue(ct, bo, bc):
     return False
 
 
+def _is_ref_param(src, pos, name):
+    """True when `name` is a parameter of reference type of the function enclosing `pos`."""
+    k = src.rfind('fn ', 0, pos)
+    while k >= 0:
+        hdr_end = src.find('{', k)
+        if hdr_end < 0 or hdr_end > pos:
+            k = src.rfind('fn ', 0, k); continue
+        hdr = src[k:hdr_end]
+        m = re.search(r'\b%s\s*:\s*(&|Option<&)' % re.escape(name), hdr)
+        m2 = re.search(r'\b%s\s*:' % re.escape(name), hdr)
+        if m2: return bool(m)
+        k = src.rfind('fn ', 0, k)
+    return False
+
+
 def r3_loops(src, ctx, map_locals=()):
     """R3 (enumerate / slices), R4 (&mut), R11 (map walk), R12 (by-value with continue)."""
     while True:
@@ -491,10 +506,13 @@ def r3_loops(src, ctx, map_locals=()):
                 raise Unsupported('enumerate() loop form not covered by R3: ' + expr)
             if new is None:
                 by_value = not expr.startswith('&') and not re.search(r'\.(iter|values|keys|iter_mut|chars|bytes)\(\)$', expr) and '..' not in expr
+                if by_value and re.match(r'^\w+$', expr) and _is_ref_param(src, ct[i_for].s, expr):
+                    by_value = False
+                    if not _has_continue(ct, bo, bc): continue
                 if by_value and re.match(r'^\w+$', expr) and expr in map_locals:
                     new = f'for {pat} in {expr}.into_iter() {{'
                     rule = 'R11'
-                elif by_value and _has_continue(ct, bo, bc):
+                elif by_value and re.match(r'^\w+(\.into_iter\(\))?$', expr) and not (expr.split('.')[0] in map_locals):
                     itv = ctx.fresh('it')
                     mm = re.match(r'^(.*)\.into_iter\(\)\s*\.skip\((.*)\)$', expr, re.S)
                     if mm:
@@ -502,7 +520,7 @@ def r3_loops(src, ctx, map_locals=()):
                     else:
                         e = re.sub(r'\.into_iter\(\)$', '', expr)
                         ctor = f'verif_into_iter({e})'
-                    new = f'{{ let mut {itv} = {ctor}; while {itv}.has_next() /*DEC*/ decreases {itv}.rest().len() {{\nlet {pat} = {itv}.next_val();\n'
+                    new = f'{{ let mut {itv} = {ctor};\nwhile {itv}.has_next() /*DEC*/ decreases {itv}.rest().len() {{\nlet {pat} = {itv}.next_val();\n'
                     close_extra = ' }'
                     rule = 'R12'
                 elif not by_value and _has_continue(ct, bo, bc):
@@ -532,7 +550,7 @@ def r12_skip_by_value(src, ctx):
             if not mm: continue
             bc = match_close(ct, bo)
             itv = ctx.fresh('it')
-            new = f'{{ let mut {itv} = verif_into_iter_skip({mm.group(1).strip()}, {mm.group(2).strip()}); while {itv}.has_next() /*DEC*/ decreases {itv}.rest().len() {{\nlet {pat} = {itv}.next_val();\n'
+            new = f'{{ let mut {itv} = verif_into_iter_skip({mm.group(1).strip()}, {mm.group(2).strip()});\nwhile {itv}.has_next() /*DEC*/ decreases {itv}.rest().len() {{\nlet {pat} = {itv}.next_val();\n'
             before = re.sub(r'\s+', ' ', src[ct[i_for].s:ct[bo].e])
             src = src[:ct[i_for].s] + new + src[ct[bo].e:ct[bc].e] + ' }' + src[ct[bc].e:]
             ctx.log.append(('R12', before, new))
@@ -687,13 +705,41 @@ def r11_into_values(src, ctx):
     return re.sub(r'(\w+)\.into_values\(\)\.collect\(\)', rep, src)
 
 
+
+def r11_hoist_map_iter(src, ctx, map_locals):
+    """`for P in M.into_iter() {` (M a local HashMap) -> `{ let __mN = M.into_iter(); for P in __mN {` so the walk has a name."""
+    while True:
+        done = True
+        for ct, i_for, i_in, bo in _for_headers(src):
+            expr = src[ct[i_in].e:ct[bo].s].strip()
+            m = re.match(r'^(\w+)\.into_iter\(\)$', expr)
+            if not m or m.group(1) not in map_locals: continue
+            bc = match_close(ct, bo)
+            pat = src[ct[i_for].e:ct[i_in].s].strip()
+            mv = ctx.fresh('m')
+            new = f'{{ let {mv} = {expr};\nfor {pat} in {mv} {{'
+            ctx.log.append(('R11', re.sub(r'\s+', ' ', src[ct[i_for].s:ct[bo].e]), new))
+            src = src[:ct[i_for].s] + new + src[ct[bo].e:ct[bc].e] + ' }' + src[ct[bc].e:]
+            done = False
+            break
+        if done: return src
+
 def map_locals_of(src):
     """names of locals declared `let [mut] X: HashMap<..>`"""
     return set(re.findall(r'let\s+(?:mut\s+)?(\w+)\s*:\s*HashMap<', src))
 
 
+def r14_wild_closure(src, ctx):
+    """`|_| e` -> `|_verif_unused| e` (Verus accepts only variable patterns as closure parameters)."""
+    def rep(m):
+        ctx.log.append(('R14', m.group(0), '|_verif_unused|'))
+        return '|_verif_unused|'
+    return re.sub(r'\|\s*_\s*\|', rep, src)
+
+
 def apply_all(src, ctx):
     src = r0_strip(src, ctx)
+    src = r14_wild_closure(src, ctx)
     src = r1_derive(src, ctx)
     src = r6_format(src, ctx)
     src = r5_let_chain(src, ctx)
@@ -704,5 +750,7 @@ def apply_all(src, ctx):
     src = r7_collect(src, ctx)
     src = r2_sum(src, ctx)
     src = r12_skip_by_value(src, ctx)
+    src = r3_loops(src, ctx, map_locals_of(src))
+    src = r11_hoist_map_iter(src, ctx, map_locals_of(src))
     src = r3_loops(src, ctx, map_locals_of(src))
     return src
